@@ -15,7 +15,7 @@
 (***************************************************************************)
 EXTENDS Naturals, Sequences, FiniteSets, TLC, Json
 
-CONSTANTS MaxScopes, MaxDecls, MaxRefs, Names, Hows, DumpMod
+CONSTANTS MaxScopes, MaxDecls, MaxRefs, Names, Hows, DumpMod, Positions
 
 VARIABLES sc, decls, refs, done
 vars == <<sc, decls, refs, done>>
@@ -25,33 +25,40 @@ ExecKinds == {"prog", "sub", "csub", "blk"}
 
 Init == sc = <<>> /\ decls = <<>> /\ refs = <<>> /\ done = FALSE
 
-\* a new scoping unit: top level, or inside an existing one
+\* a new scoping unit: top level, or inside an existing one.  "ibody" is an interface body (a scoping unit of its own,
+\* nested in the unit whose specification part holds the interface block); tw # 0 marks a separate module procedure
+\* (F2008): a contained subprogram that carries the NAME of interface body tw of the same module - two sibling
+\* scopes with one name.
 AddScope ==
   /\ ~done /\ Len(sc) < MaxScopes
   /\ \/ \E k \in Tops :
           /\ (k = "prog" => ~\E i \in 1..Len(sc) : sc[i].k = "prog")
-          /\ sc' = Append(sc, [k |-> k, par |-> 0])
-     \/ \E p \in 1..Len(sc), k \in {"csub", "blk"} :
+          /\ sc' = Append(sc, [k |-> k, par |-> 0, tw |-> 0])
+     \/ \E p \in 1..Len(sc), k \in {"csub", "blk", "ibody"} :
           \* contained subprograms live in modules, programs and (external or module) subprograms;
           \* an internal subprogram has no CONTAINS of its own; BLOCKs live where statements execute
           /\ (k = "csub" => sc[p].k \in {"mod", "prog", "sub"} \/ (sc[p].k = "csub" /\ sc[sc[p].par].k = "mod"))
           /\ (k = "blk" => sc[p].k \in ExecKinds)
-          /\ sc' = Append(sc, [k |-> k, par |-> p])
+          /\ (k = "ibody" => sc[p].k \in {"mod", "prog", "sub", "csub"})
+          /\ \E tw \in 0..Len(sc) :
+               /\ (tw # 0 => k = "csub" /\ sc[p].k = "mod" /\ sc[tw].k = "ibody" /\ sc[tw].par = p
+                              /\ ~\E j \in 1..Len(sc) : sc[j].tw = tw)
+               /\ sc' = Append(sc, [k |-> k, par |-> p, tw |-> tw])
   /\ UNCHANGED <<decls, refs, done>>
 
 AddDecl ==
   /\ ~done /\ Len(decls) < MaxDecls
   /\ \E s \in 1..Len(sc), n \in Names, h \in Hows :
        /\ ~\E j \in 1..Len(decls) : decls[j].s = s /\ decls[j].n = n
-       /\ (h # "decl" => sc[s].k # "blk")           \* USE statements are not generated inside BLOCK
+       /\ (h # "decl" => sc[s].k \notin {"blk", "ibody"})   \* USE statements are not generated inside BLOCK / interface bodies
        /\ decls' = Append(decls, [s |-> s, n |-> n, h |-> h])
   /\ UNCHANGED <<sc, refs, done>>
 
 AddRef ==
   /\ ~done /\ Len(refs) < MaxRefs
-  /\ \E s \in 1..Len(sc), n \in Names :
+  /\ \E s \in 1..Len(sc), n \in Names, p \in Positions :     \* p: the syntactic position of the reference
        /\ sc[s].k \in ExecKinds
-       /\ refs' = Append(refs, [s |-> s, n |-> n])
+       /\ refs' = Append(refs, [s |-> s, n |-> n, p |-> p])
   /\ UNCHANGED <<sc, decls, done>>
 
 Finish == /\ ~done /\ Len(sc) > 0 /\ Len(refs) > 0 /\ done' = TRUE /\ UNCHANGED <<sc, decls, refs>>
